@@ -166,3 +166,62 @@ class LoggedProblem(Problem):
         self.log.append((self.clock[0], y, val))
         functionValue.value = val
         return functionValue
+
+
+class LoggedShipped(Problem):
+    """Logging proxy around a shipped benchmark problem (same metadata, every Calculate logged)."""
+
+    def __init__(self, inner, clock=None):
+        super().__init__()
+        self.inner = inner
+        for k in ("numberOfFloatVariables", "numberOfDisreteVariables", "numberOfObjectives", "numberOfConstraints",
+                  "floatVariableNames", "discreteVariableNames", "lowerBoundOfFloatVariables",
+                  "upperBoundOfFloatVariables", "discreteVariableValues", "knownOptimum"):
+            setattr(self, k, getattr(inner, k))
+        self.dimension = getattr(inner, "dimension", inner.numberOfFloatVariables)
+        self.log = []
+        self.calls = 0
+        self.fail_at = None
+        self.fail_exc = ObjectiveFailure
+        self.max_calls = None
+        self.runaway = False
+        self.clock = clock if clock is not None else [0]
+
+    def value_at(self, y):
+        fv = FunctionValue()
+        return float(self.inner.Calculate(Point(np.array(y, dtype=np.double), []), fv).value)
+
+    def Calculate(self, point, functionValue):
+        self.calls += 1
+        self.clock[0] += 1
+        if self.fail_at is not None and self.calls == self.fail_at:
+            raise self.fail_exc("injected failure at evaluation %d" % self.calls)
+        y = tuple(float(v) for v in point.floatVariables)
+        out = self.inner.Calculate(point, functionValue)
+        self.log.append((self.clock[0], y, float(out.value)))
+        return out
+
+
+def make_shipped(name, arg):
+    if name == "hill":
+        from iOpt.problems.hill import Hill
+        return Hill(arg)
+    if name == "shekel":
+        from iOpt.problems.shekel import Shekel
+        return Shekel(arg)
+    if name == "rastrigin":
+        from iOpt.problems.rastrigin import Rastrigin
+        return Rastrigin(arg)
+    if name == "xsquared":
+        from iOpt.problems.xsquared import XSquared
+        return XSquared(arg)
+    if name == "gkls":
+        from iOpt.problems.GKLS import GKLS
+        return GKLS(arg[0], arg[1])
+    if name == "shekel4":
+        from iOpt.problems.shekel4 import Shekel4
+        return Shekel4(arg)
+    if name == "grishagin":
+        from iOpt.problems.grishagin import Grishagin
+        return Grishagin(arg)
+    raise ValueError(name)
